@@ -256,7 +256,9 @@ impl KSpec {
             KSpec::Card(ty, xs, tv, n) => format!("{ty} {} {} {tv} {n}", xs.len(), join(xs)),
             KSpec::Element(arr, i, v) => format!("element {} {} {i} {v}", arr.len(), join(arr)),
             KSpec::Table(xs, ts) => {
-                let rows: Vec<String> = ts.iter().map(|t| join(t)).collect();
+                // every row is written as its length followed by its values (rows of another arity
+                // than the variable list are legal input: `Table::new` drops them)
+                let rows: Vec<String> = ts.iter().map(|t| format!("{} {}", t.len(), join(t)).trim_end().to_string()).collect();
                 format!("table {} {} {} {}", xs.len(), join(xs), ts.len(), rows.join(" "))
             }
             KSpec::Ite(cop, cv, cval, top, tv, tval, els) => {
@@ -747,7 +749,11 @@ pub fn rand_kind(r: &mut Rng, n: usize, bools: &[usize]) -> KSpec {
         36 | 37 => {
             let k = r.range(1, 3) as usize;
             let m = r.range(0, 5) as usize;
-            let ts = (0..m).map(|_| (0..k).map(|_| r.range(-4, 5) as i32).collect()).collect();
+            let ts = (0..m).map(|_| {
+                // one row in eight has another arity
+                let kk = if r.chance(1, 8) { r.range(0, 4) as usize } else { k };
+                (0..kk).map(|_| r.range(-4, 5) as i32).collect()
+            }).collect();
             KSpec::Table(vs(r, k), ts)
         }
         38 | 39 => {
@@ -1077,7 +1083,13 @@ pub fn parse_kind(ws: &[&str]) -> Option<KSpec> {
             let n: usize = ws[1].parse().ok()?;
             let xs = nats(&ws[2..2 + n]);
             let m: usize = ws[2 + n].parse().ok()?;
-            let ts = (0..m).map(|j| ints(&ws[3 + n + j * n..3 + n + (j + 1) * n])).collect();
+            let mut ts = vec![];
+            let mut at = 3 + n;
+            for _ in 0..m {
+                let len: usize = ws.get(at)?.parse().ok()?;
+                ts.push(ints(ws.get(at + 1..at + 1 + len)?));
+                at += 1 + len;
+            }
             Some(KSpec::Table(xs, ts))
         }
         "ite" => {
